@@ -4,7 +4,7 @@
 class Contract:
     def __init__(self, qual, params=None, returns=None, requires=None, ensures=None, raises=None,
                  noraise=False, modifies=None, invariants=None, inline=False, virtual=False, trusted=False,
-                 aux=None, loop_mod=None, decreases=None, cinv=None, pure=False, note="", props=()):
+                 aux=None, loop_mod=None, decreases=None, cinv=None, pure=False, note="", props=(), assumes=None):
         self.qual = qual
         self.params = params or {}          # name -> type tag (a precondition and a hint)
         self.returns = returns              # type tag of the result (assumed at call sites, proved in body)
@@ -24,6 +24,7 @@ class Contract:
         self.pure = pure
         self.note = note
         self.props = tuple(props)
+        self.assumes = assumes or {}   # stated assumptions: assumed on entry, NOT checked at call sites (listed in evidence)
 
     @property
     def mod(self):
@@ -47,6 +48,7 @@ class Registry:
         self.specfuns = {}     # name -> python callable (exec, st, args:list[SV]) -> SV
         self.class_invs = {}   # Class -> {label: expr}
         self.lemmas = {}
+        self.content = {}
 
     def contract(self, qual, **kw):
         c = Contract(qual, **kw)
